@@ -652,6 +652,31 @@ func Run(r *hx.Run, replay []hx.Case) {
 			}
 		}
 	}
+	// long dialogues: 11, 12, 13, 14, 20 empty challenges (each restarts the exchange) followed by {nothing, 235, 535}, and
+	// as many alternations of valid server-first / restart followed by {nothing, 235}
+	for _, v := range variants {
+		for _, n := range []int{11, 12, 13, 14, 20} {
+			for _, suf := range [][]byte{{}, {symSuccess}, {symFailure}} {
+				if r.Expired() {
+					break
+				}
+				seq := make([]byte, 0, n+1)
+				for i := 0; i < n; i++ {
+					seq = append(seq, symEmpty)
+				}
+				r.Dist["family:long-dialogue"]++
+				runCase(r, mkCase(r, "c15", v.name, append(seq, suf...), nil, "user", "pencil", salt, 2))
+				if (len(suf) == 0 || suf[0] == symSuccess) && (thorough || n == 12 || n == 13 || n == 20) {
+					alt := make([]byte, 0, n+1)
+					for i := 0; i < n; i++ {
+						alt = append(alt, []byte{symEmpty, symFirst}[i%2])
+					}
+					r.Dist["family:long-dialogue"]++
+					runCase(r, mkCase(r, "c15", v.name, append(alt, suf...), nil, "user", "pencil", salt, 2))
+				}
+			}
+		}
+	}
 	// retries on the same Auth value: first call honest / interrupted, second call on a new connection.
 	// thorough: 4 first calls x every second sequence up to length 2 (after the honest first call: 3) over the 11 symbols; quick: the honest and the
 	// interrupted first call x every second sequence of length 1 and those of length 2 that start with the replayed
